@@ -1,13 +1,143 @@
 (* C04 — PIT cost equals the real cost of the network that export would produce.
-   Statements only (proofs: Proofs/PitCost.v; model: Model/PitCost.v, Model/Masks.v). *)
+   Statements only (proofs: Proofs/PitCost.v; model: Model/PitCost.v over Model/Masks.v with the repaired comb).
+
+   A network is ANY list of conv / linear layer records (kind, static sizes, bias, searchable or not, input
+   features calculator term, output shape at every call site); masks are ARBITRARY rational vectors
+   (alpha, beta, gamma) per layer; a cost specification is ANY function of the hyper-parameter record
+   selected by (layer type, conv_dw_constraint), shared or per-invocation.  Hypotheses that are not
+   structural are decidable booleans and are evaluated by the check on every case:
+     dw_consistent : a depthwise layer has as many alive outputs as alive inputs (shared masker, property C09)
+     no_degenerate : no FULL convolution is pruned to groups == in == out (1 -> 1): the open finding
+     wf_net        : groups = 1 or depthwise, kernel rank matches the layer type, at least one call site
+     groups_blind  : the cost function does not read `groups` (get_modified_vars leaves the unpruned value);
+                     proved for the five built-in specifications. *)
 From Coq Require Import QArith ZArith List Bool Arith.
 Import ListNotations.
 Require Import Plinio.Base.Qx Plinio.Model.Masks Plinio.Model.PitCost Plinio.Proofs.PitCost.
 Local Open Scope nat_scope.
 
+(* ---- the calculator hands the cost function the number of alive bits of the mask export slices with *)
+Theorem C04_in_features_is_alive_count : forall ms c, calc_count ms c = count_true (calc_mask ms c).
+Proof. exact calc_count_mask. Qed.
+
+(* every hyper-parameter handed to the cost function (discrete) is the exported layer's; `groups` stays static *)
+Theorem C04_hyperparameters_are_exported : forall ms l m site, l_search l = true ->
+  pit_hp ms true l m site =
+  let e := export_layer ms l m in mkHp (nq (l_cin e)) (nq (l_cout e)) (map nq (l_ks e)) (l_groups l) (l_bias e) site.
+Proof. exact pit_hp_export. Qed.
+
+(* ---- discrete cost = the same metric from scratch on the exported network: every spec, every network, every
+        masks, shared or per-invocation, full_cost on or off (Leibniz equality of rationals) *)
 Theorem C04_cost_discrete_eq_export : forall spec net ms full,
   groups_blind spec -> dw_consistent net ms -> no_degenerate net ms ->
   pit_cost spec net ms true full = plain_cost spec full (export_net net ms).
 Proof. exact cost_discrete_eq_export. Qed.
 
+(* without the guard for every metric whose depthwise and generic formulas agree at 1 -> 1 channels *)
+Theorem C04_cost_discrete_eq_export_insensitive : forall spec net ms full,
+  groups_blind spec -> dw_insensitive spec -> wf_net net -> dw_consistent net ms ->
+  (pit_cost spec net ms true full == plain_cost spec full (export_net net ms))%Q.
+Proof. exact cost_discrete_eq_export_insensitive. Qed.
+
+Theorem C04_builtin_specs :
+  (groups_blind params_spec /\ spec_proper params_spec /\ dw_insensitive params_spec) /\
+  (groups_blind params_nb_spec /\ spec_proper params_nb_spec /\ dw_insensitive params_nb_spec) /\
+  (groups_blind ops_spec /\ spec_proper ops_spec /\ dw_insensitive ops_spec) /\
+  (groups_blind ops_nb_spec /\ spec_proper ops_nb_spec /\ dw_insensitive ops_nb_spec) /\
+  (groups_blind gap8_spec /\ spec_proper gap8_spec).
+Proof.
+  exact (conj (conj groups_blind_params (conj proper_params dw_insensitive_params))
+        (conj (conj groups_blind_params_nb (conj proper_params_nb dw_insensitive_params_nb))
+        (conj (conj groups_blind_ops (conj proper_ops dw_insensitive_ops))
+        (conj (conj groups_blind_ops_nb (conj proper_ops_nb dw_insensitive_ops_nb))
+              (conj groups_blind_gap8 proper_gap8))))).
+Qed.
+
+(* the guard is necessary for gap8_latency: conv2d 1 -> 3 (3x3, output 6x6) pruned to 1 -> 1 costs 225 under PIT and
+   1296 from scratch on the exported layer (classified depthwise by conv_dw_constraint) *)
+Theorem C04_dw_degenerate_refuted : exists net ms, wf_net net /\ dw_consistent net ms /\ masks_nonempty net ms /\
+  ~ (pit_cost gap8_spec net ms true false == plain_cost gap8_spec false (export_net net ms))%Q.
+Proof. exact dw_degenerate_refuted. Qed.
+
+(* ---- params: the actual number of weights and biases of the exported conv / linear layers (no guard needed) *)
+Theorem C04_params_is_numel : forall net ms full, wf_net net -> dw_consistent net ms -> masks_nonempty net ms ->
+  (pit_cost params_spec net ms true full == nq (numel_net full (export_net net ms)))%Q.
+Proof. exact params_is_numel. Qed.
+
+Theorem C04_params_plain_is_numel : forall net full, wf_net net ->
+  (plain_cost params_spec full net == nq (numel_net full net))%Q.
+Proof. exact params_plain_is_numel. Qed.
+
+(* ---- before any mask is pruned.  For EVERY kernel size K >= 1 (no bound): *)
+Theorem C04_k_eff_open : forall K, 1 <= K ->
+  (k_eff_cont true K (repeat 1%Q K) (repeat 1%Q (gamma_len K)) == nq K)%Q.
+Proof. exact k_eff_open. Qed.
+
+Theorem C04_k_opt_open : forall K, 1 <= K -> kernel_size_opt true K (repeat 1%Q K) (repeat 1%Q (gamma_len K)) = K.
+Proof. exact k_opt_open. Qed.
+
+(* continuous (d = false) and discrete (d = true) cost of the network with all masks open = cost of the original
+   network, for every specification that respects equality of rationals *)
+Theorem C04_cost_open_eq_original : forall spec net ms d full,
+  spec_proper spec -> Forall (wf_open net) net -> Forall2 open_mask net ms ->
+  (pit_cost spec net ms d full == plain_cost spec full net)%Q.
+Proof. exact cost_open_eq_original. Qed.
+
+(* ---- full_cost adds exactly the static cost of the layers that are not searched *)
+Theorem C04_full_cost_adds_fixed : forall spec net ms d, length ms = length net ->
+  (pit_cost spec net ms d true == pit_cost spec net ms d false + fixed_cost spec net)%Q.
+Proof. exact full_cost_adds_fixed. Qed.
+
+(* ---- shared metrics count a layer once (first call site), per-invocation metrics at every call site *)
+Theorem C04_shared_counts_once : forall spec ms d l m s rest, s_shared spec = true -> l_sites l = s :: rest ->
+  (pit_layer_cost spec ms d l m == site_cost spec ms d l m s)%Q.
+Proof. exact shared_counts_once. Qed.
+
+Theorem C04_per_invocation_counts_each : forall spec ms d l m, s_shared spec = false ->
+  pit_layer_cost spec ms d l m = qsum (map (site_cost spec ms d l m) (l_sites l)).
+Proof. exact per_invocation_counts_each. Qed.
+
+Theorem C04_invoked_twice : forall spec ms d l m s, l_sites l = [s; s] ->
+  (pit_layer_cost spec ms d l m == (if s_shared spec then 1 else 2) * site_cost spec ms d l m s)%Q.
+Proof. exact invoked_twice. Qed.
+
+(* ---- the hypotheses are satisfiable by a non-trivial instance: conv1d 2->4 (K=5, pruned to 3 outputs, 2 taps at
+        dilation 2), a depthwise conv1d on it invoked at two call sites of different length, flatten x3 + linear *)
+Definition ex_net : list layer :=
+  [mkLayer KConv1d 2 4 1 [5] true true (CConst 2) [[12]];
+   mkLayer KConv1d 4 4 4 [3] false true (CMod 0) [[12]; [6]];
+   mkLayer KLinear 12 2 1 [] true true (CFlat (CMod 1) 3) [[]]].
+Definition ex_ms : list lmask :=
+  [mkMask false [1; 0; -3; 0]%Q [0; 0; 1; 0; 0]%Q [0; 1; 0]%Q;
+   mkMask false [1; 0; -3; 0]%Q [1; 1; 1]%Q [1; 1]%Q;
+   mkMask true [1; 1]%Q [] []].
+Example C04_example :
+  wf_net ex_net /\ dw_consistent ex_net ex_ms /\ no_degenerate ex_net ex_ms /\ masks_nonempty ex_net ex_ms /\
+  map lsize (export_net ex_net ex_ms) = [(2, 3, 1, [2]); (3, 3, 3, [3]); (9, 2, 1, [])] /\
+  qpair (pit_cost params_spec ex_net ex_ms true false) = (44, 1)%Z /\ numel_net false (export_net ex_net ex_ms) = 44 /\
+  qpair (pit_cost ops_spec ex_net ex_ms true false) = (362, 1)%Z /\
+  qpair (plain_cost ops_spec false (export_net ex_net ex_ms)) = (362, 1)%Z /\
+  qpair (pit_cost ops_spec ex_net (map open_of ex_net) false false) = qpair (plain_cost ops_spec false ex_net).
+Proof. vm_compute. repeat split; try (repeat constructor); discriminate. Qed.
+Example C04_example_open : Forall (wf_open ex_net) ex_net /\ Forall2 open_mask ex_net (map open_of ex_net).
+Proof.
+  split; [|apply open_of_net].
+  unfold ex_net. repeat (apply Forall_cons; [intros _; (split; [reflexivity|]); intro H; first [discriminate H | split; [reflexivity|cbn; repeat constructor]]|]).
+  apply Forall_nil.
+Qed.
+
+Print Assumptions C04_in_features_is_alive_count.
+Print Assumptions C04_hyperparameters_are_exported.
 Print Assumptions C04_cost_discrete_eq_export.
+Print Assumptions C04_cost_discrete_eq_export_insensitive.
+Print Assumptions C04_builtin_specs.
+Print Assumptions C04_dw_degenerate_refuted.
+Print Assumptions C04_params_is_numel.
+Print Assumptions C04_params_plain_is_numel.
+Print Assumptions C04_k_eff_open.
+Print Assumptions C04_k_opt_open.
+Print Assumptions C04_cost_open_eq_original.
+Print Assumptions C04_full_cost_adds_fixed.
+Print Assumptions C04_shared_counts_once.
+Print Assumptions C04_per_invocation_counts_each.
+Print Assumptions C04_invoked_twice.
